@@ -512,6 +512,16 @@ class SoftwareSwitchBase (object):
     else:
       self.port_stats[in_port].rx_bytes += len(packet.pack()) # Expensive
 
+    self._process_in_table(packet, in_port, packet_data)
+
+  def _process_in_table (self, packet, in_port, packet_data = None):
+    """
+    look a packet up in the flow table and act on the result
+
+    This is the part of packet processing shared by packets received on a
+    port (rx_packet) and packets sent to OFPP_TABLE by a packet_out.  The
+    latter have not been received: in_port need not be a port of ours.
+    """
     self._lookup_count += 1
     entry = self.table.entry_for_packet(packet, in_port)
     if entry is not None:
@@ -520,7 +530,8 @@ class SoftwareSwitchBase (object):
       self._process_actions_for_packet(entry.actions, packet, in_port)
     else:
       # no matching entry
-      if port.config & OFPPC_NO_PACKET_IN:
+      port = self.ports.get(in_port)
+      if port is not None and port.config & OFPPC_NO_PACKET_IN:
         return
       buffer_id = self._buffer_packet(packet, in_port)
       if packet_data is None:
@@ -680,7 +691,7 @@ class SoftwareSwitchBase (object):
       # Do we disable send-to-controller when performing this?
       # (Currently, there's the possibility that a table miss from this
       # will result in a send-to-controller which may send back to table...)
-      self.rx_packet(packet, in_port)
+      self._process_in_table(packet, in_port)
     else:
       self.log.warn("Unsupported virtual output port: %d", out_port)
 
